@@ -45,6 +45,11 @@ def rule_menu():
         ("a->ccAny(x,y,z|y)", C('Imply', None, [L("a"), ccAny("xyz", "y")])),
         ("x->ccXor(a,b,c|c)", C('Imply', None, [L("x"), ccXor("abc", "c")])),
         ("x->Any(a,b)", C('Imply', None, [L("x"), C('Any', None, it("a", "b"))])),
+        # a defaulted compound nested BELOW every kind of plain connective (from_json must hand the configurator's class map down)
+        ("AtMost1(ccXor(a,b|a),x)", C('AtMost', None, [ccXor("ab", "a"), L("x")], 1)),
+        ("All(ccAny(a,b|b),x)", C('All', None, [ccAny("ab", "b"), L("x")])),
+        ("AtLeast2(ccAny(a,b|a),x,y)", C('AtLeast', None, [ccAny("ab", "a"), L("x"), L("y")], 2)),
+        ("Any(ccXor(a,b,c|c),x)", C('Any', None, [ccXor("abc", "c"), L("x")])),
         ("ccAny(a,P|a)", ccAny(["a", P_PACK], "a")),
         ("ccXor(a,P|a)", ccXor(["a", P_PACK], "a")),
         ("ccAny(a,P,Q|a)", ccAny(["a", P_PACK, Q_PACK], "a")),
@@ -89,6 +94,8 @@ def prio_dicts(level="quick"):
     out.append({"R1": 1, "a": -1})
     out.append({"R1": -2})
     out.append({"nope": 5, "a": 1})
+    out.append({"a": 0})
+    out.append({"a": 0, "b": 1, "x": -1})
     return out
 
 
